@@ -364,8 +364,37 @@ type c14Sub struct {
 	mid  uint32
 }
 
+// c14Exhaustive runs every sequence of length 1..maxLen over a six-operation alphabet (get, two
+// valid writes, an invalid write, a wrongly-typed write whose bytes decode, a service-side update),
+// each on a fresh object with one subscriber.
+func c14Exhaustive(res *hx.Result, rng *hx.Rng, cf *hx.Cases, maxLen int) {
+	const k = 6
+	for l := 1; l <= maxLen; l++ {
+		total := 1
+		for i := 0; i < l; i++ {
+			total *= k
+		}
+		for code := 0; code < total; code++ {
+			script := make([]int, l)
+			c := code
+			for i := range script {
+				script[i] = c % k
+				c /= k
+			}
+			c14Sequence(res, rng, cf, -1, script)
+		}
+	}
+}
+
 func c14Sequential(res *hx.Result, rng *hx.Rng, cf *hx.Cases, n int) {
 	for i := 0; i < n; i++ {
+		c14Sequence(res, rng, cf, i, nil)
+	}
+}
+
+// c14Sequence: one sequence on a fresh object; script == nil: random operations
+func c14Sequence(res *hx.Result, rng *hx.Rng, cf *hx.Cases, i int, script []int) {
+	{
 		e, err := c14NewEnv()
 		if err != nil {
 			res.Fail("harness-setup", err.Error())
@@ -427,8 +456,34 @@ func c14Sequential(res *hx.Result, rng *hx.Rng, cf *hx.Cases, n int) {
 			}
 		}
 		nops := 12 + rng.Intn(14)
+		if script != nil {
+			nops = len(script) + 1
+		}
 		for j := 0; j < nops; j++ {
-			switch x := rng.Intn(100); {
+			x := rng.Intn(100)
+			var forcedName *c14Name
+			var forcedVal *c14Val
+			var forcedInt *uint32
+			if script != nil {
+				forcedName = &c14Delay
+				if j == 0 {
+					x = 0 // subscribe
+				} else {
+					switch script[j-1] {
+					case 0:
+						x = 20 // raw get
+					case 1, 2, 3, 4:
+						x = 50 // raw set
+						v := []c14Val{c14Int(5), c14Int(7), c14Int(0xffffffff), {"s", svStr("abcd")}}[script[j-1]-1]
+						forcedVal = &v
+					case 5:
+						x = 90 // service-side update
+						u := uint32(9)
+						forcedInt = &u
+					}
+				}
+			}
+			switch {
 			case x < 10 && len(subs) < 3:
 				conn := rng.Intn(3)
 				uid++
@@ -443,6 +498,9 @@ func c14Sequential(res *hx.Result, rng *hx.Rng, cf *hx.Cases, n int) {
 				record(fmt.Sprintf("PSubscribe %d %d", conn, mid), "SDone", evs, desc)
 			case x < 30:
 				nm := c14GenName(rng)
+				if forcedName != nil {
+					nm = *forcedName
+				}
 				g, ok := e.rawGet(rng.Intn(3), nm)
 				evs := e.events()
 				desc := fmt.Sprintf("get(%s)->%s", nm.term(), g)
@@ -480,6 +538,12 @@ func c14Sequential(res *hx.Result, rng *hx.Rng, cf *hx.Cases, n int) {
 			case x < 68:
 				nm := c14GenName(rng)
 				v, vk := c14GenVal(rng)
+				if forcedVal != nil {
+					nm, v, vk = *forcedName, *forcedVal, "int32"
+					if v.sig != "i" {
+						vk = "string"
+					}
+				}
 				r, ok := e.rawSet(rng.Intn(3), nm, v)
 				evs := e.events()
 				desc := fmt.Sprintf("set(%s, %s %s)->%s", nm.term(), vk, v, r)
@@ -515,6 +579,9 @@ func c14Sequential(res *hx.Result, rng *hx.Rng, cf *hx.Cases, n int) {
 				}
 			default:
 				xv := c14GenInt(rng)
+				if forcedInt != nil {
+					xv = *forcedInt
+				}
 				r := e.update(xv)
 				evs := e.events()
 				desc := fmt.Sprintf("UpdateDelay(%d)->%s", int32(xv), r)
@@ -530,11 +597,15 @@ func c14Sequential(res *hx.Result, rng *hx.Rng, cf *hx.Cases, n int) {
 		}
 		e.close()
 		res.Count(strings.Join(ops, "|"), invalid)
-		res.Dist(fmt.Sprintf("seq-ops:%d0s", len(ops)/10))
-		for _, d := range descs {
-			res.Dist("seq:" + strings.SplitN(d, "(", 2)[0])
+		if script != nil {
+			res.Dist(fmt.Sprintf("exhaustive-seq-len:%d", len(script)))
+		} else {
+			res.Dist(fmt.Sprintf("seq-ops:%d0s", len(ops)/10))
+			for _, d := range descs {
+				res.Dist("seq:" + strings.SplitN(d, "(", 2)[0])
+			}
 		}
-		if i < 2 {
+		if i >= 0 && i < 2 {
 			res.Sample(trace())
 		}
 		cf.Add("scases", fmt.Sprintf("{| sc_ops := [\n    %s] |}", strings.Join(ops, ";\n    ")), fmt.Sprintf("sequence %d: %s", i, trace()))
@@ -886,6 +957,11 @@ func runC14(res *hx.Result, rng *hx.Rng, tier string, outdir string) {
 		"scases", "scase", "ccases", "ccase")
 	cf.Extra = append(cf.Extra, "Local Open Scope N_scope.", fmt.Sprintf("Definition cfg := mkcfg %s.", hx.Bool(on)))
 	c14Sequential(res, rng, cf, nSeq)
+	if tier == "thorough" {
+		c14Exhaustive(res, rng, cf, 5)
+		res.Exhaustive = true
+		res.Notes = append(res.Notes, "exhaustive part: every sequence of length <= 5 over {get, set 5, set 7, set -1, set String(abcd), UpdateDelay(9)} on a fresh object with one subscriber (9330 sequences)")
+	}
 	c14Concurrent(res, rng, cf, nConc)
 	cf.Flush()
 }
